@@ -54,6 +54,26 @@
 (*        outcome of the other host.  In the design every lookup answers  *)
 (*        into its own future (only Lookup(i, FALSE)); fixed in the tree  *)
 (*        by commit 8e48811.                                               *)
+(*   "AdAnyResolver"  (never observed in the tree; kept so that the        *)
+(*        resolver dimension can be shown to be non-vacuous) the AD flag   *)
+(*        of the MX answer is believed whichever resolver it came from.    *)
+(*                                                                         *)
+(* Two further dimensions of the environment (the design itself is simple; *)
+(* they exist so that TLC hands them to the implementation):               *)
+(*   cfg.res   the resolver list of the DNSSEC-aware stub resolver with a  *)
+(*        fault per resolver and query class (RemoteObs.Trusted): the      *)
+(*        design goes by an AD flag only when the ANSWERING server is a    *)
+(*        loopback one (CheckMXRes, the TLSA outcome handed to dane).      *)
+(*   msg.late  an earlier recipient domain of the same message whose MX    *)
+(*        lookup fails while its MTA-STS policy lookup is unanswered; the  *)
+(*        answer arrives after PrepareDomain of this domain (one           *)
+(*        mtastsDelivery serves all recipient domains of a delivery).  In  *)
+(*        the design every lookup answers into its own future, so the      *)
+(*        late answer has no effect (StsLookup(FALSE), a stuttering step   *)
+(*        that only exists to explain the recorded event); an answer that  *)
+(*        lands in this domain's future (cross = TRUE) is not a design     *)
+(*        step: the trace drifts and the monitor keeps evaluating the      *)
+(*        MTASTS clause against this domain's own policy.                  *)
 (***************************************************************************)
 EXTENDS RemoteObs, TLC, SequencesExt, Json
 
@@ -68,6 +88,7 @@ CONSTANTS PolSets,      \* sets of enabled policies explored
           WithDNSFail,  \* TRUE: also explore a failing MX lookup
           SlowSet,      \* values of the "TLSA lookup answers late" fact (non-last MX, dane enabled)
           CnSet,        \* CNAME situations of an MX name explored (dane enabled), see RemoteObs
+          ResSet,       \* resolver lists explored (RemoteObs: cfg.res)
           QuitSet,      \* how an MX answers QUIT: "bye" (221, closes), "busy" (421, keeps the connection open),
                         \* "silent" (no reply), "drop" (closes without a reply); the design closes its side anyway
           Devs, Gen
@@ -105,7 +126,33 @@ KindsQ == Kinds1 \cup KindsLateQ \cup KindsNA
 KindsPre == {[MK(TRUE, FALSE, FALSE) EXCEPT !.pre = TRUE]}
 KindsPreFocus == Kinds1 \cup KindsPre \cup {MK(TRUE, FALSE, FALSE)}
 StsDnssecSets == {{"mtasts"}, {"dnssec"}, {"mtasts", "local"}, {"dnssec", "local"}, {"mtasts", "dane"}}
+\* an earlier recipient domain of the message answers its MTA-STS lookup late (RemoteObs: msg.late)
+KindsLate == {[NoMsg EXCEPT !.late = x] : x \in {"none", "testing", "match"}}
+\* ... next to an ordinary message and one whose earlier recipient domain IS delivered (its policy answered in time)
+KindsLateFocus == Kinds1 \cup KindsLate \cup {[NoMsg EXCEPT !.pre = TRUE]}
 KindsAll == KindsX \cup Kinds5 \cup KindsPre
+KindsSim == KindsAll \cup KindsLate      \* behaviour generation only: the design does not depend on msg.late
+StsSets == {{"mtasts"}, {"mtasts", "local"}}
+(* resolver lists: R(loopback?, classes of queries it fails) *)
+R(lp, f) == [loop |-> lp, fail |-> f]
+QAll == {"MX", "HOST"}
+LocalRes == {DefaultRes}
+FallbackRes == {<<R(TRUE, QAll), R(FALSE, {})>>}
+AllRes == {DefaultRes,
+           <<R(TRUE, QAll), R(FALSE, {})>>,       \* the local resolver is down: a non-local one answers everything
+           <<R(TRUE, {"MX"}), R(FALSE, {})>>,     \* ... answers the MX query only
+           <<R(TRUE, {"HOST"}), R(FALSE, {})>>,   \* ... answers the queries about the MX hosts only
+           <<R(FALSE, {})>>,                      \* no local resolver at all
+           <<R(FALSE, {}), R(TRUE, {})>>,         \* the non-local one is asked first and answers
+           <<R(FALSE, QAll), R(TRUE, {})>>,       \* the non-local one is asked first, fails, the local one answers
+           <<R(TRUE, QAll), R(TRUE, {})>>}        \* two local resolvers, the first one down
+QuickRes == {DefaultRes, <<R(TRUE, QAll), R(FALSE, {})>>, <<R(TRUE, {"MX"}), R(FALSE, {})>>,
+             <<R(TRUE, {"HOST"}), R(FALSE, {})>>, <<R(FALSE, QAll), R(TRUE, {})>>}
+\* the policy sets whose verdict rests on AD flags
+AdPolSets == {{"dnssec"}, {"dnssec", "local"}, {"dane"}, {"dane", "local"}, {"dane", "dnssec", "local"}}
+AdStlsCert == {SC("offered", "valid"), SC("offered", "selfsigned")}
+AdTlsa == {"none", "ee_match", "mismatch", "servfail"}
+KindsRes == {MK(FALSE, FALSE, FALSE), MK(TRUE, FALSE, FALSE)}
 
 VARIABLES cfg, k, cur, pc, mxi, att, lvl, conn, pool, lastErr,
           pend,   \* TLSA outcome of an earlier MX whose lookup is still unanswered ("no" = none)
@@ -138,8 +185,9 @@ MXSeqs(P, s, n) ==
   ELSE {<<f, g>> : f \in MXFacts(P, s, SlowSet), g \in MXFacts(P, s, {FALSE})}
 DefaultMX == [stls |-> "offered", cert |-> "valid", stsMatch |-> FALSE, tlsa |-> "insecure", slow |-> FALSE,
               cn |-> "no", tlsaC |-> "insecure", quit |-> "bye"]
-MkCfg(P, a, b, ov, s, ad, d, ms) ==
-  [pols |-> P, minTLS |-> a, minMX |-> b, override |-> ov, sts |-> s, adMX |-> ad, dns |-> d, mx |-> ms]
+MkCfgR(P, a, b, ov, s, ad, d, ms, rs) ==
+  [pols |-> P, minTLS |-> a, minMX |-> b, override |-> ov, sts |-> s, adMX |-> ad, dns |-> d, mx |-> ms, res |-> rs]
+MkCfg(P, a, b, ov, s, ad, d, ms) == MkCfgR(P, a, b, ov, s, ad, d, ms, DefaultRes)
 
 H(e) == IF Gen THEN Append(hist, e) ELSE hist
 
@@ -159,9 +207,11 @@ Init ==
           b \in (IF "local" \in P THEN MinMXSet ELSE {0}),
           ov \in OverrideSet,
           ad \in (IF "dnssec" \in P THEN BOOLEAN ELSE {FALSE}),
-          n \in NMXSet :
+          n \in NMXSet,
+          \* the resolver list matters only to the policies that read AD flags
+          rs \in (IF "dnssec" \in P \/ "dane" \in P THEN ResSet ELSE {DefaultRes}) :
          \E ms \in MXSeqs(P, s, n) :
-           InitWith(MkCfg(P, a, b, ov, s, ad, "ok", ms))
+           InitWith(MkCfgR(P, a, b, ov, s, ad, "ok", ms, rs))
   \/ /\ WithDNSFail
      /\ \E P \in PolSets :
           InitWith(MkCfg(P, 0, 0, TRUE, "none", FALSE, "servfail", <<DefaultMX>>))
@@ -176,7 +226,8 @@ CheckMXRes(i) ==
   LET f == cfg.mx[i]
       stsErr == "mtasts" \in Pol /\ cfg.sts = "enforce" /\ ~f.stsMatch
       l1 == IF "mtasts" \in Pol /\ cfg.sts # "none" /\ f.stsMatch THEN 1 ELSE 0
-      l2 == IF "dnssec" \in Pol /\ cfg.adMX THEN Max2(l1, 2) ELSE l1
+      ad == IF "AdAnyResolver" \in Devs THEN cfg.adMX ELSE AdMX(cfg)
+      l2 == IF "dnssec" \in Pol /\ ad THEN Max2(l1, 2) ELSE l1
   IN IF stsErr THEN [err |-> "perm", lvl |-> 0, prep |-> FALSE]
      ELSE IF "local" \in Pol /\ l2 < cfg.minMX THEN [err |-> "temp", lvl |-> 0, prep |-> "dane" \in Pol]
      ELSE [err |-> "none", lvl |-> l2, prep |-> "dane" \in Pol]
@@ -255,7 +306,7 @@ LookupFail(res) ==
 CheckMXCore(cross) ==
   /\ pc = "mx" /\ mxi <= NMX
   /\ LET r == CheckMXRes(mxi)
-         own == EffTLSA(cfg.mx[mxi]) IN   \* discoverTLSA: canonical name first, then the MX name
+         own == EffTLSAc(cfg, cfg.mx[mxi]) IN   \* discoverTLSA: canonical name first, then the MX name
        /\ IF r.err # "none"
           THEN lastErr' = r.err /\ mxi' = mxi + 1 /\ UNCHANGED <<pc, lvl, att>>
           ELSE lvl' = r.lvl /\ pc' = "conn" /\ att' = "first" /\ UNCHANGED <<mxi, lastErr>>
@@ -266,6 +317,13 @@ CheckMXCore(cross) ==
                     /\ tl' = (IF pend = "ee_match" THEN "mismatch" ELSE pend) /\ pend' = "no"
           ELSE tl' = own /\ pend' = IF cfg.mx[mxi].slow THEN own ELSE "no"
   /\ UNCHANGED <<cfg, k, cur, conn, pool, devs, obs, hist>>
+
+(* The MTA-STS answer for the earlier recipient domain of a "late" message arrives after *)
+(* PrepareDomain of this domain.  Design: it is stored in the future created for THAT    *)
+(* domain, which nobody reads any more - nothing changes.                                  *)
+StsLookup(cross) ==
+  /\ cur.late # "no" /\ pc \notin {"idle", "end"} /\ ~cross
+  /\ UNCHANGED vars
 
 Outstanding == pc = "mx" /\ mxi <= NMX /\ pend # "no" /\ CheckMXRes(mxi).prep
 
@@ -300,11 +358,11 @@ CheckConn ==
        /\ IF r.err # "none"
           THEN lastErr' = r.err /\ mxi' = mxi + 1 /\ pc' = "mx" /\ conn' = NoConn
           ELSE /\ conn' = [conn EXCEPT !.mxl = lvl, !.tll = r.tll,
-                                       !.taint = IF "dane" \in Pol /\ tl # EffTLSA(cfg.mx[conn.mx])
+                                       !.taint = IF "dane" \in Pol /\ tl # EffTLSAc(cfg, cfg.mx[conn.mx])
                                                  THEN {"TlsaFutureShared"} ELSE {}]
                /\ pc' = "gate" /\ UNCHANGED <<mxi, lastErr>>
        \* waiting for the future consumes this MX's own pending lookup
-       /\ pend' = IF r.used /\ tl = EffTLSA(cfg.mx[conn.mx]) THEN "no" ELSE pend
+       /\ pend' = IF r.used /\ tl = EffTLSAc(cfg, cfg.mx[conn.mx]) THEN "no" ELSE pend
   /\ UNCHANGED <<cfg, k, cur, att, lvl, pool, tl, devs, obs, hist>>
 
 Gate(res) ==
